@@ -933,8 +933,14 @@ def run_observer(R: Replayed, op, tier, rec: Rec, ctx, only_answer=None):
                 if err:
                     problems.append(err)
                     continue
-                got = int(r[0])
                 want = sum(1 for _, row in ref.rows if row[c] == v)
+                try:
+                    got = int(r[0])
+                except (TypeError, ValueError):
+                    # not a number at all (e.g. None for a value no row holds): the count is not what the table implies
+                    case([c, v], repr(r[0]), ('count', 'not-a-number'), nontrivial=False)
+                    problems.append(('count', f'count({c!r}, {v}) = {r[0]!r} (not a number), the table holds {want}', [c, v]))
+                    continue
                 case([c, v], got, ('count', got), nontrivial=False)
                 if got != want:
                     problems.append(('count', f'count({c!r}, {v}) = {got}, the table holds {want}', [c, v]))
